@@ -1,4 +1,5 @@
 mod core;
+mod doc;
 mod drive;
 mod extract;
 mod replay;
@@ -47,6 +48,22 @@ fn main() {
             let regex = arg(&args, "--regex").expect("--regex");
             let bytes: Vec<u8> = serde_json::from_str(&arg(&args, "--bytes").expect("--bytes")).unwrap();
             println!("{}", rx::one(&regex, &bytes));
+        }
+        Some("load") => {
+            let input = arg(&args, "--in").expect("--in");
+            let output = arg(&args, "--out").expect("--out");
+            let subst: usize = arg(&args, "--subst").and_then(|s| s.parse().ok()).unwrap_or(0);
+            let seed: u64 = arg(&args, "--seed").and_then(|s| s.parse().ok()).unwrap_or(1);
+            // --stack-mb N: run the whole job on a thread with that stack size (pathological nesting is tried with the
+            // default main-thread size of 8 MB); the calls themselves then run inline, not on the big executor thread
+            if let Some(mb) = arg(&args, "--stack-mb").and_then(|s| s.parse::<usize>().ok()) {
+                let pf = args.iter().any(|a| a == "--prefixes");
+                std::env::set_var("VH_INLINE", "1");
+                let h = std::thread::Builder::new().stack_size(mb << 20).spawn(move || doc::run(&input, &output, pf, subst, seed)).unwrap();
+                println!("{}", h.join().unwrap());
+            } else {
+                println!("{}", doc::run(&input, &output, args.iter().any(|a| a == "--prefixes"), subst, seed));
+            }
         }
         Some("histories") => {
             let input = arg(&args, "--in").expect("--in");
